@@ -1193,6 +1193,9 @@ func (m *Memberlist) readStream(conn net.Conn, streamLabel string) (messageType,
 		if err != nil {
 			return 0, nil, nil, err
 		}
+		if len(plain) == 0 {
+			return 0, nil, nil, errors.New("decrypted message is empty")
+		}
 
 		// Reset message type and bufConn
 		msgType = messageType(plain[0])
